@@ -259,11 +259,12 @@ def loop_state(ctx, prog):
         desc = [(l, f.locals[l]["name"], f.locals[l]["ty"]) for l in c]
         allowed = []
         bad = []
+        caches = set(_ptr_caches(f, Sym(f)).values()) if unsafe_cfg else set()
         for l, nm, ty in desc:
-            if "Iter" in ty or "iter" in nm or ty.startswith("core::array::IntoIter") or "IntoIter" in ty:
+            if "Iter" in ty:
                 allowed.append(nm or ty)
-            elif unsafe_cfg and nm in ("bhrange0", "bhrange1") and ty.startswith("*mut"):
-                allowed.append(nm)
+            elif l in caches and ty.startswith("*mut"):
+                allowed.append("pointer cache")
             else:
                 bad.append("%s: %s" % (nm or "_%d" % l, ty))
         ctx.ob(RL, "%s: no local besides the iterator%s is carried across iterations" % (f.short.split("::")[-1], " and the pointer caches" if unsafe_cfg else ""),
@@ -424,12 +425,13 @@ def mirror(ctx, prog):
         f = prog.fn(name)
         ctx.visit(f)
         sy = Sym(f)
-        for lname, field in (("bhrange0", "bhidx_start"), ("bhrange1", "bhidx_end")):
-            ls = [l for l, d in enumerate(f.locals) if d["name"] == lname]
-            if len(ls) != 1:
-                ctx.ob(RM, "%s: cache %s present" % (f.short.split("::")[-1], lname), False, "%d locals" % len(ls), f.loc())
+        caches = _ptr_caches(f, sy)
+        for field in ("bhidx_start", "bhidx_end"):
+            if field not in caches:
+                ctx.ob(RM, "%s: pointer cache of %s present" % (f.short.split("::")[-1], field), False, "caches found: %s" % sorted(caches), f.loc())
                 continue
-            l = ls[0]
+            l = caches[field]
+            lname = f.locals[l]["name"]
             defs = f.defs.get(l, [])
             init = 0
             adv = []
@@ -454,7 +456,7 @@ def mirror(ctx, prog):
                         incs.append(i)
             # the advance call sits in the block chain right after the increment: same block or the call terminating it
             paired = len(incs) == len(adv) == 1 and (incs[0] == adv[0] or f.dominates(incs[0], adv[0]) and adv[0] in f.lsuccs(incs[0]) + [incs[0]] or f.dominates(adv[0], incs[0]) and incs[0] in f.lsuccs(adv[0]))
-            ctx.ob(RM, "%s: %s = base.add(%s) initially, advanced by add(1) together with every %s += 1, assigned nowhere else" % (f.short.split("::")[-1], lname, field, field),
+            ctx.ob(RM, "%s: the pointer cache of %s is base.add(%s) initially, advanced by add(1) together with every %s += 1, assigned nowhere else" % (f.short.split("::")[-1], field, field, field),
                    init == 1 and paired and not bad, "init %d, advances at bb%s, increments at bb%s, other assignments %s" % (init, adv, incs, bad), f.loc())
 
 
@@ -539,8 +541,15 @@ def step_thresholds(ctx, prog):
     g = prog.fn("Generator::guess_output_log_block_size")
     ctx.visit(g)
     gs = Sym(g)
-    dec = [i for i, j, s in g.stmts() if s["s"] == "assign" and not s["lhs"]["p"] and g.locals[s["lhs"]["l"]]["name"] == "log_block_size" and
-           strip(gs.rvalue(s["rv"]))[0] == "bin" and strip(gs.rvalue(s["rv"]))[1] == "Sub"]
+    def _self_dec(s):
+        # `x = x - 1` on a named local (the candidate index being halved), whatever it is called
+        if s["s"] != "assign" or s["lhs"]["p"] or not g.locals[s["lhs"]["l"]]["name"]:
+            return False
+        e = strip(gs.rvalue(s["rv"]))
+        if e[0] == "agg" and e[1] == "Tuple":
+            e = strip(e[2][0])
+        return e[0] == "bin" and e[1] == "Sub" and strip(e[2]) == ("local", s["lhs"]["l"], g.locals[s["lhs"]["l"]]["name"]) and const_value(e[3]) == 1
+    dec = [i for i, j, s in g.stmts() if _self_dec(s)]
     ok = len(dec) == 1
     why = "%d decrements" % len(dec)
     if ok:
@@ -598,6 +607,69 @@ def _abstract(lines, safe):
     return out
 
 
+def _ptr_caches(f, sy):
+    """{field: local} for the pointer caches of the unsafe engine: locals initialised as as_mut_ptr(bh_context).add(self.<field>)"""
+    out = {}
+    for l in range(f.argc + 1, len(f.locals)):
+        for (blk, idx, kind, x) in f.defs.get(l, []):
+            e = strip(sy.rvalue(x) if kind == "rv" else sy.call(x, blk))
+            if e[0] == "call" and e[1].endswith("::add") and len(e[2]) == 2 and "as_mut_ptr" in canon(strip(e[2][0])) and ".bh_context" in canon(strip(e[2][0])):
+                m = re.search(r"param:self\.0\.(bhidx_start|bhidx_end)$", canon(strip(e[2][1])))
+                if m:
+                    out[m.group(1)] = l
+    return out
+
+
+def _roles(f, safe):
+    """user-chosen names of the loop plumbing -> role names (so that renaming a variable in either engine is not a difference)"""
+    sy = Sym(f)
+    roles = {}
+
+    def defs_of(l):
+        return [canon(strip(sy.rvalue(x) if k == "rv" else sy.call(x, b))) for (b, _i, k, x) in f.defs.get(l, [])]
+    if safe:
+        for l in range(f.argc + 1, len(f.locals)):
+            nm = f.locals[l]["name"]
+            if not nm:
+                continue
+            ds = defs_of(l)
+            me = "local:%s_%d" % (nm, l)
+            if len(ds) == 2 and sorted(ds) == sorted(["param:self.0.bhidx_start", "Add(%s,1)" % me]):
+                roles[nm] = "i"
+        inv = {v: k for k, v in roles.items()}
+        for l in range(f.argc + 1, len(f.locals)):
+            nm = f.locals[l]["name"]
+            if not nm or nm in roles:
+                continue
+            ds = defs_of(l)
+            if len(ds) == 1 and re.match(r"\(<core::slice::IterMut<'a, T> as core::iter::Iterator>::next\(local:\w+\) as Some\)\.0$", ds[0]):
+                roles[nm] = "bh1"
+            elif len(ds) == 1 and "i" in inv and re.match(r"param:self\.0\.bh_context\[local:%s_\d+\]$" % re.escape(inv["i"]), ds[0]):
+                roles[nm] = "bh_curr_reused"
+    else:
+        caches = _ptr_caches(f, sy)
+        for fld, role in (("bhidx_start", "bhrange0"), ("bhidx_end", "bhrange1")):
+            if fld in caches:
+                roles[f.locals[caches[fld]]["name"]] = role
+        ptrs = [l for l in range(f.argc + 1, len(f.locals)) if f.locals[l]["name"] and f.locals[l]["ty"].startswith("*mut") and f.locals[l]["ty"].endswith("BlockHashContext")
+                and l not in caches.values()]
+        for l in ptrs:
+            nm = f.locals[l]["name"]
+            ds = defs_of(l)
+            if len(ds) == 1 and re.match(r"core::ptr::mut_ptr::<impl \*mut T>::add\(local:\w+,1\)$", ds[0]):
+                roles[nm] = "bh_next"
+            else:
+                roles[nm] = "bh"
+    return roles
+
+
+def _rename(lines, roles):
+    if not roles or all(k == v for k, v in roles.items()):
+        return lines
+    rx = re.compile(r"local:(%s)\b" % "|".join(re.escape(k) for k in sorted(roles, key=len, reverse=True)))
+    return [rx.sub(lambda m: "local:" + roles[m.group(1)], l) for l in lines]
+
+
 def engine_correspondence(ctx, safe_prog, unsafe_prog):
     from .features import effect_canon
     RE = "SA-ENGINEMAP"
@@ -606,8 +678,8 @@ def engine_correspondence(ctx, safe_prog, unsafe_prog):
         fs, fu = safe_prog.fn(name), unsafe_prog.fn(name)
         ctx.visit(fs)
         ctx.visit(fu)
-        a = _abstract(effect_canon(fs), True)
-        b = _abstract(effect_canon(fu), False)
+        a = _abstract(_rename(effect_canon(fs), _roles(fs, True)), True)
+        b = _abstract(_rename(effect_canon(fu), _roles(fu, False)), False)
         same = a == b
         why = "%d corresponding effect lines" % len(a)
         if not same:
